@@ -505,6 +505,41 @@ fn job_cases(rep: &mut Report, rng: &mut Rng, n: u64) {
     }
 }
 
+/// "Whatever the provider does": a provider that never stops asking. Every request — the follow-ups
+/// carrying the answers included — is answered with one more function call, to an allowed tool or to
+/// one the configured tool choice bars. The run must end by itself, with exactly one end frame, well
+/// before the script (four times the bound) runs out.
+fn relentless_provider_cases(rep: &mut Report, rng: &mut Rng, n: u64) {
+    use crate::c16::{build_sse, gen_response, run_e2e, E2eConfig};
+    let bound: usize = std::fs::read_to_string("/verif/.build/gen.json").ok().and_then(|t| serde_json::from_str::<Value>(&t).ok()).and_then(|v| v["consts"].as_array().and_then(|a| a.iter().find(|c| c["name"] == "provider_openresponses_DEFAULT_MAX_TOOL_CALLS").and_then(|c| c["value"].as_str().and_then(|s| s.parse().ok())))).unwrap_or(32);
+    for case_no in 0..n {
+        let barred = case_no % 2 == 0;
+        let tool_choice = if barred { json!("none") } else { json!("auto") };
+        let mut serial = 0u64;
+        let total = bound * 4;
+        let script: Vec<Resp> = (0..total)
+            .map(|r| {
+                let events = gen_response(rng, &mut serial, 1, false, &["ls"]);
+                Resp::Sse { body: build_sse(rng, &events, Some(&format!("resp_{r}")), true, &[]), chunk: 0, cut_at: None }
+            })
+            .collect();
+        let cfg = E2eConfig { stateless: rng.chance(1, 2), followup: None, tool_choice: tool_choice.clone(), parallel: false };
+        let res = run_e2e(&cfg, script, "hello");
+        rep.evaluations += 1;
+        rep.traces_validated += 1;
+        rep.count("relentless_provider_cases");
+        let ended = res.frames.iter().filter(|f| f["type"] == "session_ended").count();
+        let case = json!({"case": case_no, "tool_choice": tool_choice, "every_response_calls": if barred { "a barred tool" } else { "an allowed tool" }, "responses_scripted": total, "requests_made": res.bodies.len(), "end_reason": res.reason, "end_frames": ended});
+        if ended != 1 || res.frames.last().map(|f| f["type"] != "session_ended").unwrap_or(true) {
+            rep.oracle_failure("C07|relentless-provider|end-frames", &format!("{ended} end frames (or frames after the end) in a run against a provider that never stops asking"), case.clone());
+        }
+        if res.bodies.len() >= total {
+            rep.oracle_failure("C07|relentless-provider|run-ends-only-when-the-provider-stops", &format!("the run made {} requests and ended ('{}') only when the provider's script ran out: its end depends on the provider", res.bodies.len(), res.reason), case.clone());
+        }
+        rep.nontrivial_case(&format!("relentless {barred} {}", res.bodies.len()));
+    }
+}
+
 pub fn run(opts: &Opts) -> Report {
     let mut rep = Report::new(
         "C07",
@@ -515,5 +550,6 @@ pub fn run(opts: &Opts) -> Report {
     let k = if opts.thorough { 8 } else { 1 } * opts.scale;
     lifecycle_cases(&mut rep, &mut model, &mut rng, 150 * k);
     job_cases(&mut rep, &mut rng, 6 * k);
+    relentless_provider_cases(&mut rep, &mut rng, 4 * k);
     rep
 }
